@@ -271,6 +271,84 @@ def stats_net(name, noise, sigma_act, conf_pr):
     return net
 
 
+# ---------------------------------------------------------------- angular values at 0 / 400 gon
+WRAP_OFF = [-5, -1, 1, 5]          # consistent reading relative to 0 = 400 gon, in cc
+WRAP_ERR = [-8, 8]                 # error put on that observation, in cc (the residual gets the other sign)
+WRAP_FRAMES = ["ne-l", "en-r", "sw-l"]
+WRAP_IDS = {"A": "A", "B": "B2", "C": "30", "D": "4", "E": "E", "F": "F6"}
+
+
+def wrap_setting(k):
+    """k in 0..7 -> (offset, error) in gon"""
+    return (WRAP_OFF[k % 4] * 1e-4, WRAP_ERR[k // 4] * 1e-4)
+
+
+def wrap_net(kd, ka, kz, frame, pat=0):
+    """plane network with ONE direction (A->C), ONE angle (at A, C -> E) and ONE azimuth (A->F) whose consistent values lie
+    WRAP_OFF cc from 0 / 400 gon and carry the error WRAP_ERR (settings kd, ka, kz in 0..7), all other observations with the
+    usual noise (pattern pat in {0, 1}): observed values on both sides of the boundary, residuals of both signs, adjusted values crossing it or not"""
+    import math
+    (od, ed), (oa, ea), (oz, ez) = wrap_setting(kd), wrap_setting(ka), wrap_setting(kz if kz is not None else 0)
+    G2R = math.pi / 200.0
+    xa, ya = XY["A"]; xc, yc = XY["C"]
+    bC = math.atan2(yc - ya, xc - xa)
+    dC = math.hypot(xc - xa, yc - ya)
+    pts = [Pt("A", xa, ya, None, xy="fix"), Pt("B", XY["B"][0], XY["B"][1], None, xy="fix"),
+           Pt("C", xc, yc, None, xy="adj"), Pt("D", XY["D"][0], XY["D"][1], None, xy="adj"),
+           Pt("E", xa + 1.4 * dC * math.cos(bC + oa * G2R), ya + 1.4 * dC * math.sin(bC + oa * G2R), None, xy="fix"),
+           Pt("F", xa + 150.0 * math.cos(oz * G2R), ya + 150.0 * math.sin(oz * G2R), None, xy="adj")]
+    sA = station("A", di("B"), di("C"), di("D"), ds("C"), ds("D"), an("C", "E"), az("F"), ds("F"))
+    if kz is None: del sA.obs[6]          # the reference model of an azimuth holds for axes-xy="ne" only: no azimuth in the other frames
+    sA.zero = bC / G2R - od
+    cls = [sA, station("B", di("A"), di("C"), di("D"), di("F"), ds("C"), ds("D"), ds("F")),
+           station("C", di("A"), di("B"), di("D"), ds("D"))]
+    net = Net(pts, cls, **{"sigma-apr": 10, "conf-pr": 0.95, "tol-abs": 1000, "sigma-act": "aposteriori"})
+    net.description = "angular values at 0/400: direction %d angle %d azimuth %s" % (kd, ka, kz)
+    finish(net, frame, pat)
+    sA.obs[1].err = ed; sA.obs[5].err = ea
+    if kz is not None: sA.obs[6].err = ez
+    gnet.fill_values(net)
+    rename_all(net, WRAP_IDS)
+    net.name = "wrap"; net.dimtype = "2"
+    return net
+
+
+# ---------------------------------------------------------------- status combinations (coordinates summary)
+STATUS = [None, "fix", "adj", "con"]
+POINT_STATES = [(sxy, sz) for sxy in STATUS for sz in STATUS if not (sxy is None and sz is None)]      # 15
+_ST_ANCH = [("G1", 0.0, 0.0, 10.0), ("G2", 120.0, 10.0, 45.0), ("G3", 20.0, 130.0, 80.0)]
+_ST_HELP = ("H", 70.0, 60.0, 30.0)
+_ST_VAR = [("P1", 40.0, 50.0, 33.0), ("P2", 85.0, 35.0, 55.0), ("P3", 60.0, 95.0, 20.0)]
+
+
+def state_name(st):
+    return "/".join("%s+%s" % (a or "-", b or "-") for a, b in st)
+
+
+def status_net(states):
+    """3-D network: three fixed anchors, one adjusted helper point H and len(states) variable points; states[k] = (status of
+    x,y, status of z) of point k, each None (the point has no such coordinate) / 'fix' / 'adj' / 'con'.  Adjustable coordinates
+    are tied to the anchors (distances for x,y, height differences for z), every existing coordinate also to H, so each point
+    takes part in the adjustment whatever its statuses are."""
+    pts = [Pt(a, x, y, z, xy="fix", zs="fix") for (a, x, y, z) in _ST_ANCH]
+    h = _ST_HELP
+    pts.append(Pt(h[0], h[1], h[2], h[3], xy="adj", zs="adj"))
+    dist = [Obs("distance", a[0], h[0], stdev=5.0) for a in _ST_ANCH]
+    hd = [Obs("dh", a[0], h[0], stdev=3.0) for a in _ST_ANCH[:2]]
+    for (pid, x, y, z), (sxy, sz) in zip(_ST_VAR, states):
+        pts.append(Pt(pid, x if sxy else None, y if sxy else None, z if sz else None, xy=sxy, zs=sz))
+        if sxy in ("adj", "con"): dist += [Obs("distance", a[0], pid, stdev=5.0) for a in _ST_ANCH]
+        if sxy: dist.append(Obs("distance", pid, h[0], stdev=4.0))
+        if sz in ("adj", "con"): hd += [Obs("dh", a[0], pid, stdev=3.0) for a in _ST_ANCH[:2]]
+        if sz: hd.append(Obs("dh", pid, h[0], stdev=2.0))
+    net = Net(pts, [Cluster("obs", dist), Cluster("height-differences", hd)],
+              **{"sigma-apr": 10, "conf-pr": 0.95, "tol-abs": 1000, "sigma-act": "aposteriori"})
+    net.description = "statuses " + state_name(states)
+    finish(net, "ne-l", 0)
+    net.name = "status"; net.dimtype = "3"
+    return net
+
+
 def rename_all(net, mp):
     for p in net.points: p.id = mp.get(p.id, p.id)
     for c in net.clusters:
